@@ -3,6 +3,7 @@
 From Coq Require Import Reals List Bool Arith ZArith.
 From Coquelicot Require Import Complex.
 From QV Require Import Sem Mat2 Toff2 Chain Vchain RelPhase McxModel McxPlaced LinearMcx McxMulti Cvoqram GenLib Majority Gen_majority MajorityGen IrProps QdmcuModel.
+From QV Require Placed MultiTarget.
 Import ListNotations.
 Open Scope nat_scope.
 
@@ -105,3 +106,20 @@ Theorem C05_linear_mcx_action_only : forall k pat, (1 <= k)%nat ->
   forall psi, srun (linear_mcx k pat false) psi = srun Cl (srun (linear_mcx k pat true) psi).
 Proof. intros k pat Hk. exact (lm_split k pat Hk). Qed.
 Print Assumptions C05_linear_mcx_action_only.
+
+(* Placement, in general: a circuit of the IR over the qubits 0..w-1, re-labelled through ANY map f injective on them, acts on a
+   global basis state as the circuit acts on the local bits read through f, all other qubits untouched (push writes the local bits
+   back onto f 0 .. f (w-1)).  Every statement above therefore holds on any distinct qubits, dirty ancillas included. *)
+Theorem C05_placed_any : forall (f : nat -> nat) (w : nat), (forall i j, (i < w)%nat -> (j < w)%nat -> f i = f j -> i = j) ->
+  forall c, Forall (Placed.bndw w) c -> forall Psi b,
+  srun (map (Placed.relabelf f) c) Psi b = srun c (fun y => Psi (Placed.push f w b y)) (Placed.pull f w b).
+Proof. exact Placed.srun_placed. Qed.
+Print Assumptions C05_placed_any.
+
+(* the multi-target V-chain (k = j+3 controls, nt targets, every pattern) on any placement *)
+Theorem C05_vchain_multi_placed : forall (j nt : nat), (1 <= nt)%nat -> (1 <= j \/ 2 <= nt)%nat -> forall (f : nat -> nat),
+  (forall a b, (a < 2 * j + 4 + nt)%nat -> (b < 2 * j + 4 + nt)%nat -> f a = f b -> a = b) -> forall (p : list bool) Psi b,
+  srun (map (Placed.relabelf f) (vchain (j + 3) nt p false false)) Psi b
+  = Psi (if MultiTarget.pmf j f p b then flips (map f (targets j nt)) b else b).
+Proof. exact MultiTarget.vchain_multi_placed. Qed.
+Print Assumptions C05_vchain_multi_placed.
